@@ -114,7 +114,10 @@ DIR_SEGS = ["docs", "dir", "dir/deep", "newdir", ".", "..", "ln_dir_in", "ln_dir
 FINAL_SEGS = ["a.oct.md", "new.oct.md", "new.octave", "new.md", "b.md", "c.octave", "top.oct.md", "new.txt", "notes.txt",
               "new.oct.md.bak", "new.tar.md", "new.oct.MD", "NEW.OCT.MD", "new.md.", "new", "new.oct.md/", "ln_file_in.oct.md",
               "ln_file_out.oct.md", "dangling.oct.md", "dangling_out.oct.md", "dangling2.md", "loop.oct.md", "", "a\x00b.oct.md",
-              "L" * 300 + ".oct.md", ".md", "new.oct.md ", "new.Md", "new.json", "..", ".", "secret.oct.md", "s.oct.md"]
+              "L" * 300 + ".oct.md", ".md", "new.oct.md ", "new.Md", "new.json", "..", ".", "secret.oct.md", "s.oct.md",
+              "new.m\u0501", "new.oct.md\u200b", "new.\uff2d\uff24", "new.md\n", "new.md\t", "x..md", ".oct.md", "new.octave.", "new.OCTAVE",
+              "new.oct.md.", "new.md/.", "new.md/..", "new.txt/../new.md", "new.md\\", "new.oct", "new.octave.txt", "new.mdx", "newmd",
+              "new.oct.md~", "new.md;x.txt", "new.md%00.txt", "caf\u00e9.md", "cafe\u0301.md"]
 
 
 def gen_path(t: Tape) -> dict:
